@@ -31,7 +31,7 @@ def main():
             "guard": "picilisp_verif",
             "enable": "RUSTFLAGS=\"--cfg picilisp_verif\" CARGO_TARGET_DIR=/verif/.build/target-verif cargo build --offline [--release]  (run by every check from /repo's working tree)",
             "baseline_off_cmd": "cd /repo && cargo test --workspace --no-fail-fast --offline",
-            "source_commits": ["8bf9b90"],
+            "source_commits": ["8bf9b90", "acd2e0e", "c4b638a", "36f6fe5", "b593ac5"],
             "add_only": True,
         },
         "engines": [{"name": "coq-model+correspondence", "path": "/verif/coq, /verif/vp, /verif/gen",
